@@ -2,14 +2,16 @@
    Directives: ExtrOcamlBasic (bool, option, list, prod, unit, sumbool, sumor),
    ExtrOcamlString (ascii -> char, string -> char list).  No Extract Constant of our own. *)
 From Coq Require Import Extraction ExtrOcamlBasic ExtrOcamlString.
-From Ucg Require Import base.Bytes data.Val prec.Climb.
+From Ucg Require Import base.Bytes data.Val prec.Climb env.Collector.
 From UcgGen Require Import PrecTable DocPrecTable.
 
 Extraction Language OCaml.
 Set Extraction Optimize.
 
+
 Definition climb_code (a : nat) (c : list (op * nat)) := option_map (@shape_of nat) (climb code_prec a c).
 Definition spec_doc (a : nat) (c : list (op * nat)) :=
-  option_map (@shape_of nat) (spec_tree doc_prec (S (length c)) a c).
+  option_map (@shape_of nat) (spec_tree doc_prec (S (List.length c)) a c).
 
-Extraction "model.ml" climb_code spec_doc Z_dec N_dec.
+Extraction "model.ml" climb_code spec_doc dec_of_Z
+  test_run exit_code file_spec.
